@@ -267,6 +267,27 @@ func ruleFutureOrder(c *Ctx, r *R) {
 			}
 		}
 	})
+	if cl == nil {
+		// close through a helper of the channel (`f.c.release()`): the helper closes its argument unconditionally (in its
+		// entry block); the closing instruction of Fill is then the call of the helper
+		for _, di := range deepInstrs(fill, 2) {
+			x, ok := di.in.(*ssa.Call)
+			if !ok || len(di.calls) == 0 || di.calls[0].Parent() != fill {
+				continue
+			}
+			if bi, ok := x.Call.Value.(*ssa.Builtin); ok && bi.Name() == "close" && fieldOfChan(argOf(x.Call.Args[0], di.calls)) == "c" {
+				uncond := x.Block() == x.Parent().Blocks[0]
+				for _, h := range di.calls[1:] {
+					if h.Block() != h.Parent().Blocks[0] {
+						uncond = false
+					}
+				}
+				if uncond {
+					cl = di.calls[0]
+				}
+			}
+		}
+	}
 	r.ok(st != nil && cl != nil && st.Block() == cl.Block() && idxIn(st) < idxIn(cl) && st.Block() == fill.Blocks[0], "xsync.Future.Fill|store-then-close", fill.Pos(), "Fill must store x (the parameter) and then close(c), unconditionally: waiters read x right after the close")
 	for _, name := range []string{"xsync.Future.Wait", "xsync.Future.WaitContext"} {
 		fn := c.fn(name)
